@@ -350,6 +350,150 @@ pub fn replay_mmapvec(args: &Args) {
     println!("{}", json!({"vectors": t.vectors, "steps": t.steps, "configs": configs, "mismatches": t.mismatches, "bad": t.bad}));
 }
 
+// ---------------------------------------------------------------- weighted counts (spec/GenWmc.tla)
+
+fn weight_spec(v: &Value) -> crate::bdd_rec::WeightSpec {
+    let kind: &'static str = match v["sr"].as_str().unwrap() {
+        "real" => "real",
+        "complex" => "complex",
+        "eu" => "eu",
+        "ff" => "ff",
+        "bool" => "bool",
+        "poly" => "poly",
+        "rat" => "rat",
+        k => panic!("unknown semiring kind {k}"),
+    };
+    let comps = |x: &Value| x.as_array().unwrap().iter().map(|c| c.as_i64().unwrap()).collect::<Vec<i64>>();
+    crate::bdd_rec::WeightSpec {
+        kind,
+        p: v["p"].as_u64().unwrap(),
+        wexp: v["wexp"].as_u64().unwrap() as u32,
+        w: v["w"].as_array().unwrap().iter().map(|p| (comps(&p[0]), comps(&p[1]))).collect(),
+    }
+}
+
+/// count with the library and compare, component by component, with what TLC computed from the definition
+fn count_matches<'a, P: DDNNFPtr<'a>>(x: P, ws: &crate::bdd_rec::WeightSpec, nv: usize, exp: &Value) -> Result<(), Value> {
+    let mut ev = json!({});
+    match crate::bdd_rec::count_in(x, ws, nv, &mut ev) {
+        Ok(()) => {
+            let ok = ev["val"] == *exp && ev.get("den").map_or(true, |d| d == 1) && ev.get("tail0").map_or(true, |t| t == true);
+            if ok { Ok(()) } else { Err(ev) }
+        }
+        Err(m) => Err(json!({"panic": m})),
+    }
+}
+
+fn td_wmc<'a, B: rsdd::builder::decision_nnf::DecisionNNFBuilder<'a>>(b: &'a B, name: String, nv: usize, vecs: &[Value], t: &mut Tally) {
+    use rsdd::repr::{Cnf, Literal};
+    for v in vecs.iter().filter(|v| v["op"] == "wmc") {
+        let tt = tt_of(&v["f"]);
+        let mut cl: Vec<Vec<Literal>> = (0..(1usize << nv))
+            .filter(|a| (tt >> a) & 1 == 0)
+            .map(|a| (0..nv).map(|x| Literal::new(VarLabel::new_usize(x), (a >> x) & 1 == 0)).collect())
+            .collect();
+        if cl.is_empty() {
+            cl.push(vec![Literal::new(VarLabel::new_usize(nv - 1), true), Literal::new(VarLabel::new_usize(nv - 1), false)]);
+        }
+        let cnf = Cnf::new(&cl);
+        t.steps += 1;
+        let got = match guarded(|| b.compile_cnf_topdown(&cnf)) {
+            Ok(x) => count_matches(x, &weight_spec(v), nv, &v["val"]).err(),
+            Err(m) => Some(json!({"panic": m})),
+        };
+        if let Some(got) = got {
+            t.mismatches += 1;
+            if t.bad.len() < 10 {
+                t.bad.push(json!({"cfg": name, "vector": v, "got": got}));
+            }
+        }
+    }
+}
+
+pub fn replay_wmcvec(args: &Args) {
+    use rsdd::builder::decision_nnf::{SemanticDecisionNNFBuilder, StandardDecisionNNFBuilder};
+    let text = std::fs::read_to_string(args.str("in", "")).expect("read vectors");
+    let nv = args.num("nv", 3) as usize;
+    let vecs: Vec<Value> = text.lines().map(|l| serde_json::from_str(l).unwrap()).collect();
+    let mut t = Tally { vectors: vecs.len(), steps: 0, mismatches: 0, bad: vec![] };
+    let mut configs = 0;
+    let mut bad = |t: &mut Tally, cfg: String, v: &Value, got: Value| {
+        t.mismatches += 1;
+        if t.bad.len() < 10 {
+            t.bad.push(json!({"cfg": cfg, "vector": v, "got": got}));
+        }
+    };
+    // every order named by the vectors (TLC prints all permutations)
+    let mut orders: Vec<(String, Vec<usize>)> = vec![];
+    if let Some(v) = vecs.iter().find(|v| v["op"] == "uwmc") {
+        for (k, o) in v["orders"].as_object().unwrap() {
+            orders.push((k.clone(), o.as_array().unwrap().iter().map(|x| x.as_u64().unwrap() as usize).collect()));
+        }
+    } else {
+        orders.push(("identity".into(), (0..nv).collect()));
+    }
+    let vo = |o: &Vec<usize>| VarOrder::new(&o.iter().map(|v| VarLabel::new_usize(*v)).collect::<Vec<_>>());
+    // --- BDDs under every order: normalised counts = wmc, arbitrary weights = the order's unsmoothed count
+    for (i, (key, o)) in orders.iter().enumerate() {
+        configs += 1;
+        rsdd::verif::set_table_capacity(if i % 2 == 0 { 0 } else { 2 });
+        let b = RobddBuilder::<AllIteTable<BddPtr>>::new(vo(o));
+        let mut memo = HashMap::new();
+        for v in &vecs {
+            let f = bdd_build(&b, tt_of(&v["f"]), 0, o, nv, &mut memo);
+            let ws = weight_spec(v);
+            let exp = if v["op"] == "wmc" { &v["val"] } else { &v["vals"][key.as_str()] };
+            t.steps += 1;
+            if let Err(got) = count_matches(f, &ws, nv, exp) {
+                bad(&mut t, format!("bdd order {o:?}"), v, got);
+            }
+            // the complement shares every node: its count under normalised weights is checked through the same fold
+            if v["op"] == "wmc" && ws.kind == "real" {
+                t.steps += 1;
+                let total: i64 = 8i64.pow(nv as u32 * ws.wexp);
+                let e = json!([total - v["val"][0].as_i64().unwrap()]);
+                if let Err(got) = count_matches(f.neg(), &ws, nv, &e) {
+                    bad(&mut t, format!("bdd order {o:?} (negation)"), v, got);
+                }
+            }
+        }
+    }
+    // --- SDDs under three vtree shapes, normalised weights
+    for (i, (_, o)) in orders.iter().enumerate().take(3) {
+        configs += 1;
+        let labels: Vec<VarLabel> = o.iter().map(|v| VarLabel::new_usize(*v)).collect();
+        let vt = match i {
+            0 => VTree::right_linear(&labels),
+            1 => VTree::left_linear(&labels),
+            _ => VTree::even_split(&labels, 1),
+        };
+        rsdd::verif::set_table_capacity(0);
+        let bm = CompressionSddBuilder::new(vt);
+        let b = &bm;
+        let mut memo = HashMap::new();
+        for v in vecs.iter().filter(|v| v["op"] == "wmc") {
+            let f = sdd_build(b, tt_of(&v["f"]), 0, nv, &mut memo);
+            t.steps += 1;
+            if let Err(got) = count_matches(f, &weight_spec(v), nv, &v["val"]) {
+                bad(&mut t, format!("sdd vtree shape {i} over {o:?}"), v, got);
+            }
+        }
+    }
+    // --- top-down d-DNNFs of the canonical CNF of f (one clause per falsifying assignment), normalised weights
+    for (i, (_, o)) in orders.iter().enumerate().take(4) {
+        configs += 1;
+        if i % 2 == 0 {
+            let b = StandardDecisionNNFBuilder::new(vo(o));
+            td_wmc(&b, format!("top-down std order {o:?}"), nv, &vecs, &mut t);
+        } else {
+            let b = SemanticDecisionNNFBuilder::<{ rsdd::constants::primes::U64_LARGEST }>::new(vo(o));
+            td_wmc(&b, format!("top-down sem order {o:?}"), nv, &vecs, &mut t);
+        }
+    }
+    rsdd::verif::set_table_capacity(0);
+    println!("{}", json!({"vectors": t.vectors, "steps": t.steps, "configs": configs, "mismatches": t.mismatches, "bad": t.bad}));
+}
+
 // ---------------------------------------------------------------- standard triples (Ite::new)
 
 pub fn replay_itevec(args: &Args) {
